@@ -32,6 +32,8 @@ def pkg_t(path_tag):
     src.append("func Local2() interface{ M() string } { type L struct{ base; x int }; return L{base{\"%s.Local2.L\"}, 1} }" % path_tag)
     src.append("func GenId[E any](e E) string { type L struct{ v E }; _ = L{e}; return \"%s.GenId\" }" % path_tag)
     src.append("func GenLocal[E any]() any { type L struct{ v E }; return L{} }")
+    src.append("// Box returns its argument as an interface: the dynamic type must be the instantiating type argument\nfunc Box[E any](e E) any { return e }\ntype Cell[E any] struct{ V E }\nfunc (c Cell[E]) Get() any { return c.V }")
+    src.append("type Base struct{ Id int }\nfunc (b *Base) ID() int { return b.Id }\nfunc (b Base) Sum() int { return b.Id + 1000 }\ntype EA struct { Pad [3]int; Base }\ntype EB struct { Base; Pad [3]int }")
     src.append("var Init1 = func() string { return func() string { return \"%s.Init1\" }() }()" % path_tag)
     src.append("var initTrace string\nfunc init() { initTrace += func() string { return \"%s.init#1;\" }() }\nfunc init() { initTrace += func() string { return \"%s.init#2;\" }() }\nfunc InitTrace() string { return initTrace }" % (path_tag, path_tag))
     return "\n".join(src) + "\n"
@@ -71,6 +73,14 @@ def main_src():
     case("ident[xt.T](xt.T{N: 1}) + \"|\" + ident[yt.T](yt.T{N: 2}) + \"|\" + ident[alias](3) + \"|\" + ident[[]int](nil) + \"|\" + ident[struct{ A int }](struct{ A int }{4})")
     case("lib.UseBoth()")
     case("btoa(any(xt.GenLocal[int]()) == any(xt.GenLocal[int]())) + btoa(any(xt.GenLocal[int]()) == any(yt.GenLocal[int]())) + btoa(any(lib.XtGenLocalInt()) == any(xt.GenLocal[int]()))")
+    # generic instances whose type arguments are composite types over same-named local types of two functions
+    case("localArgs1() + \"|\" + localArgs2()")
+    # method expressions reaching one declared method through different receiver types (promotion, value vs pointer form)
+    for pk in ("xt", "yt"):
+        case("func() string { f, g := (*%s.EA).ID, (*%s.EB).ID; a, b := &%s.EA{Base: %s.Base{Id: 7}}, &%s.EB{Base: %s.Base{Id: 9}}; return itoa(int64(f(a))) + \"|\" + itoa(int64(g(b))) + \"|\" + itoa(int64(f(a))) }()" % (pk, pk, pk, pk, pk, pk))
+        case("func() string { f, g := %s.Base.Sum, (*%s.Base).Sum; v := %s.Base{Id: 5}; return itoa(int64(f(v))) + \"|\" + itoa(int64(g(&v))) }()" % (pk, pk, pk))
+        case("func() string { f, g := %s.EA.Sum, %s.EB.Sum; return itoa(int64(f(%s.EA{Base: %s.Base{Id: 1}}))) + \"|\" + itoa(int64(g(%s.EB{Base: %s.Base{Id: 2}}))) }()" % (pk, pk, pk, pk, pk, pk))
+        case("func() string { a, b := &%s.EA{Base: %s.Base{Id: 3}}, &%s.EB{Base: %s.Base{Id: 4}}; f, g := a.ID, b.ID; return itoa(int64(f())) + \"|\" + itoa(int64(g())) }()" % (pk, pk, pk, pk))
     # closures in init / package-level initialisers of main
     case("mainInit + \"|\" + mainVar")
     src = PRELUDE.replace('import (\n\t"os"\n\t"unsafe"\n)', 'import (\n\t"os"\n\t"unsafe"\n\n\t"vt/lib"\n\txt "vt/x/t"\n\tyt "vt/y/t"\n)')
@@ -94,6 +104,113 @@ func ident[E any](e E) string {
 		return "struct" + itoa(int64(v.A))
 	}
 	return "?"
+}
+
+
+func localArgs1() string {
+	type L struct{ a int }
+	r := ""
+	{
+		v := make(chan L)
+		_, ok := xt.Box(v).(chan L)
+		_, ok2 := xt.Cell[chan L]{V: v}.Get().(chan L)
+		r += btoa(ok) + btoa(ok2)
+	}
+	{
+		v := make(<-chan L)
+		_, ok := xt.Box(v).(<-chan L)
+		r += btoa(ok)
+	}
+	{
+		v := []chan L{nil}
+		_, ok := xt.Box(v).([]chan L)
+		r += btoa(ok)
+	}
+	{
+		v := []L{{1}}
+		_, ok := xt.Box(v).([]L)
+		_, ok2 := xt.Cell[[]L]{V: v}.Get().([]L)
+		r += btoa(ok) + btoa(ok2)
+	}
+	{
+		v := &L{2}
+		_, ok := xt.Box(v).(*L)
+		r += btoa(ok)
+	}
+	{
+		v := map[string]L{}
+		_, ok := xt.Box(v).(map[string]L)
+		r += btoa(ok)
+	}
+	{
+		v := [2]L{}
+		_, ok := xt.Box(v).([2]L)
+		r += btoa(ok)
+	}
+	{
+		v := func(L) {}
+		_, ok := xt.Box(v).(func(L))
+		r += btoa(ok)
+	}
+	{
+		v := struct{ f L }{}
+		_, ok := xt.Box(v).(struct{ f L })
+		r += btoa(ok)
+	}
+	return r
+}
+
+func localArgs2() string {
+	type L struct{ b string }
+	r := ""
+	{
+		v := make(chan L)
+		_, ok := xt.Box(v).(chan L)
+		_, ok2 := xt.Cell[chan L]{V: v}.Get().(chan L)
+		r += btoa(ok) + btoa(ok2)
+	}
+	{
+		v := make(<-chan L)
+		_, ok := xt.Box(v).(<-chan L)
+		r += btoa(ok)
+	}
+	{
+		v := []chan L{nil}
+		_, ok := xt.Box(v).([]chan L)
+		r += btoa(ok)
+	}
+	{
+		v := []L{{"x"}}
+		_, ok := xt.Box(v).([]L)
+		_, ok2 := xt.Cell[[]L]{V: v}.Get().([]L)
+		r += btoa(ok) + btoa(ok2)
+	}
+	{
+		v := &L{"y"}
+		_, ok := xt.Box(v).(*L)
+		r += btoa(ok)
+	}
+	{
+		v := map[string]L{}
+		_, ok := xt.Box(v).(map[string]L)
+		r += btoa(ok)
+	}
+	{
+		v := [2]L{}
+		_, ok := xt.Box(v).([2]L)
+		r += btoa(ok)
+	}
+	{
+		v := func(L) {}
+		_, ok := xt.Box(v).(func(L))
+		r += btoa(ok)
+	}
+	{
+		v := struct{ f L }{}
+		_, ok := xt.Box(v).(struct{ f L })
+		r += btoa(ok)
+	}
+	return r
 }
 
 type who interface{ Who() string }
